@@ -50,11 +50,14 @@ def prepare(tier):
 def gen_layers(rng, ndim):
     out = []
     for _ in range(rng.choice([1, 1, 2, 3])):
-        k = rng.choice(["density", "temperature", "velocity", "velocity-vec"])
+        # "level" and "flag" are integer-valued members (int64 / int32): a call may consist of integer layers only
+        k = rng.choice(["density", "temperature", "velocity", "velocity-vec", "level", "flag"])
         if k == "velocity-vec":
             out.append({"key": "velocity", "mode": rng.choice(["vec", "stream"])})
         else:
             out.append({"key": k, "mode": rng.choice([None, None, "image", "contourf"])})
+    if rng.random() < 0.08:
+        out = [{"key": rng.choice(["level", "flag"]), "mode": rng.choice([None, "image"])} for _ in range(rng.choice([1, 2]))]
     return out
 
 
@@ -110,9 +113,19 @@ def make_sim(case, dry):
     return Sim(T=T, partition=s["partition"], policy=pol, rng=core.rng_for(s["sched_seed"], "sched"), contenders=cont, touches=touches)
 
 
-def prior_call(case, dg, extra=None):
-    """The caller's earlier use of the same objects: a coarse map of another window.  Returns the state to pass on."""
+def prior_call(case, dg, extra=None, same_view=False):
+    """The caller's earlier use of the same objects: a coarse map of another window (or, with `same_view`, the very same
+    view with whatever differs in `extra`).  Returns the state to pass on."""
     m = case["mesh"]
+    if same_view:
+        state = {}
+        try:
+            call_map(dict(case, knob=None), dg, lambda: Sim(T=1), extra=extra, state=state)
+        except HarnessError:
+            raise
+        except Exception:
+            pass
+        return state
     box = m["scale"]
     v = dict(case["view"])
     if v["origin"] is not None:
